@@ -76,6 +76,13 @@ def wrap(pos, t):
         return PR, "[int, ProbeRec]"
     if pos == "map_value_record":
         return PR, "!map {keys: string, values: ProbeRec}"
+    PA = "ProbeAlias: %s\n" % t
+    only = {"map_key_alias": "!map {keys: ProbeAlias, values: int}", "map_value_alias": "!map {keys: string, values: ProbeAlias}",
+            "array_item_alias": "!array {items: ProbeAlias, dimensions: 2}", "fixed_vector_item_alias": "!vector {items: ProbeAlias, length: 2}",
+            "union_case_alias": "!union {num: double, probe: ProbeAlias}", "generic_arg_alias": "G<ProbeAlias>",
+            "optional_alias": "[null, ProbeAlias]", "stream_item_alias": "!stream {items: ProbeAlias}"}
+    if pos in only:
+        return PA, only[pos]
     if pos == "field_of_nested_record":
         return "ProbeRec: !record\n  fields:\n    k: int\n    p: %s\nOuterProbe: !record\n  fields:\n    o: ProbeRec\n    z: string\n" % t, "OuterProbe"
     raise KeyError(pos)
